@@ -122,6 +122,9 @@ def I64(*xs):
     return True
 
 
+_ATOM_TYPES = (int, bool, str, float, type(None))
+
+
 def tx(x):
     """Type-exact structural snapshot (1, True and 1.0 are all different)."""
     t = type(x)
@@ -143,6 +146,10 @@ def tx(x):
         return ("str", x)
     if isinstance(x, type):
         return ("type", x.__name__)
+    if isinstance(x, dict):      # a mapping subclass (OrderedDict, defaultdict, ...): by content, with its type
+        return ("dict:" + t.__name__, tuple((tx(k), tx(v)) for k, v in x.items()))
+    if isinstance(x, list):      # a list subclass
+        return ("list:" + t.__name__, tuple(tx(v) for v in x))
     return ("obj", t.__name__, x)
 
 
@@ -247,10 +254,17 @@ def same_objs(label, got, exp):
 
 def docids(x):
     """Identity structure of a document: ids of every nested container (aliasing / rebinding shows up)."""
-    if type(x) is dict:
+    t = type(x)
+    if t is dict:
         return ("dict", id(x), tuple((tx(k), docids(v)) for k, v in x.items()))
-    if type(x) is list:
+    if t is list:
         return ("list", id(x), tuple(docids(v) for v in x))
+    if t in _ATOM_TYPES:
+        return None
+    if isinstance(x, dict):
+        return ("dict:" + t.__name__, id(x), tuple((tx(k), docids(v)) for k, v in x.items()))
+    if isinstance(x, list):
+        return ("list:" + t.__name__, id(x), tuple(docids(v) for v in x))
     return None
 
 
@@ -335,11 +349,12 @@ def is_json_compatible(x):
 
 def container_ids(x, acc=None):
     acc = set() if acc is None else acc
-    if type(x) is dict:
+    t = type(x)
+    if t is dict or (t not in _ATOM_TYPES and t is not list and isinstance(x, dict)):
         acc.add(id(x))
         for v in x.values():
             container_ids(v, acc)
-    elif type(x) is list:
+    elif t is list or (t not in _ATOM_TYPES and isinstance(x, list)):
         acc.add(id(x))
         for v in x:
             container_ids(v, acc)
